@@ -21,11 +21,17 @@ transition bytecode version) and the blocks root from its parameter, with no two
 (4) JSON encoding:
 for every named table the writer side (impl AddTable<T> for StateConfigBuilder) stores the entries and
 the reader side (impl AsTable<T> for StateConfig) produces entries from the config (sibling impl lists
-agree); the parquet path is generic in T.
+agree); the parquet path is generic in T. (5, 6: extra build configuration `parquet` = fuel-core-chain-config with the
+feature the node binary enables) positional contract of every Iterator::nth override on the snapshot read path: counted
+per acyclic path (`next` on self or a field = 1, inner `nth(n)` = n + 1, `self.index += n` = n), no path consumes more
+than n + 1 groups and some path skips by n (a resumed import calls `.skip(k)`, i.e. `nth`); loop-based or otherwise
+uncounted idioms are accepted, not proved. Decoder::next advances its cursor by the constant 1 and reads the row group
+at the cursor. Codec agreement: PostcardParquetEncoder::write encodes entries with postcard::to_stdvec and returns the
+encoder's result, GroupIter::next decodes with postcard::from_bytes; Encoder::write opens exactly one row group per
+call, writes the given elements and closes column and group after the batch is written.
 """
-NOT_DECIDED = """Value equality after import (codec round trips), group-size arithmetic, and the parquet encoder/decoder and
-the parquet arm of the group reader (feature `parquet` is enabled only by the node binary, not by the analysed library
-configurations; what goes wrong there is positional arithmetic, e.g. seed C39-4's off-by-one `nth`)."""
+NOT_DECIDED = """Value equality after import (codec round trips), group-size arithmetic, the parquet crate's own
+file format, under-consumption by a positional override (fewer than n + 1 items), loop-based positional overrides."""
 
 G = "fuel_core::service::genesis"
 REQUIRED = ["Coins", "Messages", "BlobData", "ContractsRawCode", "ContractsLatestUtxo", "ContractsState", "ContractsAssets",
@@ -199,3 +205,137 @@ def check(ctx):
                 ctx.add(f"3.last-block-{f}", "PROV", atom_match(at, spec) and not any(atom_match(at, w) for w in others),
                         f"LastBlockConfig.{f} is the exported header's {spec.split('::')[-1]} and no other component (regenesis builds its genesis block and picks its executor version from these)",
                         sites=[str(ag[0].get("line"))], site_key=f, witness={"atoms": sorted(map(str, at))[:8]})
+
+
+# ---------------------------------------------------------------------------------------------------
+# configuration `parquet` (fuel-core-chain-config built with its parquet feature, as the node binary does)
+# ---------------------------------------------------------------------------------------------------
+IT = "core::iter::traits::iterator::Iterator"
+PQ = CC + "::parquet"
+CONSUMING = {"next": (0, 1)}
+UNDECIDED_ITER = ("advance_by", "skip", "last", "count", "for_each", "fold", "try_fold", "nth_back", "next_back", "by_ref", "take")
+
+
+def _from_self(o, op):
+    at = o.atoms(op)
+    return atom_match(at, "param:1") or atom_match(at, "field:*")
+
+
+def _nth_paths(b):
+    """acyclic entry→return paths of a (small) body; None when the body has a cycle (loop idiom: not decided)"""
+    rets = set(b.return_blocks())
+    out, cyc = [], [False]
+
+    def dfs(bb, path):
+        if len(out) > 4000:
+            return
+        if bb in path:
+            cyc[0] = True
+            return
+        path = path + [bb]
+        if bb in rets:
+            out.append(path)
+            return
+        for (s, _lab) in b.succs(bb):
+            if s in b.live:
+                dfs(s, path)
+    dfs(0, [])
+    return None if cyc[0] else out
+
+
+def nth_consumption(ctx, u):
+    """ITERPOS: an `Iterator::nth(n)` override may consume at most n + 1 items of the sequence `next` yields, and must
+    skip by n on some path. Counted per acyclic path: `next` on self / a field = 1, an inner `nth(n)` = n + 1,
+    `self.<index> = self.<index> + n` = n."""
+    b = u.root
+    name = f"{(b.impl_self or u.q).split('::')[-1].split('<')[0]}"
+    o = Origins(b, 1)
+    paths = _nth_paths(b)
+    site = [f"{b.file}:{b.line}"]
+    if paths is None:
+        return ctx.add(f"5.{name}-nth-consumes-n+1", "ITERPOS", True, f"{name}::nth is loop-based: positional count not decided (accepted, not proved)", sites=site, site_key=name)
+    calls = {c.bb: c for c in b.calls if c.bb in b.live}
+    idx_adds = {}   # bb -> the call `x.saturating_add(n)` / checked_add / wrapping_add whose operands are a self field and n
+    for bb, c in calls.items():
+        if c.name in ("saturating_add", "checked_add", "wrapping_add", "add") and len(c.args) == 2:
+            a0, a1 = o.atoms(c.args[0]), o.atoms(c.args[1])
+            if (atom_match(a0, "field:*") and atom_match(a1, "param:2")) or (atom_match(a1, "field:*") and atom_match(a0, "param:2")):
+                idx_adds[bb] = c
+    for bb, j, s in b.stmts():   # `self.idx += n` / `self.idx + n` as a checked binary operation
+        if bb in b.live and s["k"] == "assign" and s["rv"]["k"] in ("binop", "checked_binop") and s["rv"].get("op") in ("Add", "AddWithOverflow", "AddUnchecked"):
+            a0, a1 = o.atoms(s["rv"]["a"]), o.atoms(s["rv"]["b"])
+            if (atom_match(a0, "field:*") and atom_match(a1, "param:2")) or (atom_match(a1, "field:*") and atom_match(a0, "param:2")):
+                idx_adds[bb] = s
+    bad, skips, undecided = [], 0, []
+    for p in paths:
+        coef = const = 0
+        for bb in p:
+            if bb in idx_adds:
+                coef += 1
+            c = calls.get(bb)
+            if c is None or not c.args or not _from_self(o, c.args[0]):
+                continue
+            is_iter = c.is_path(f"{IT}::*") or (c.path or "").startswith(IT + "::")
+            if is_iter and c.name == "next":
+                const += 1
+            elif is_iter and c.name == "nth":
+                if len(c.args) > 1 and atom_match(o.atoms(c.args[1]), "param:2") and not atom_match(o.atoms(c.args[1]), "call:*") and not atom_match(o.atoms(c.args[1]), "const:*"):
+                    coef += 1; const += 1
+                else:
+                    undecided.append(c.where())
+            elif is_iter and c.name in UNDECIDED_ITER:
+                undecided.append(c.where())
+        if coef >= 1:
+            skips += 1
+        if coef > 1 or const > 1:
+            bad.append({"consumes": f"{coef}*n + {const}", "path": b.describe_path(p)})
+    if undecided:
+        return ctx.add(f"5.{name}-nth-consumes-n+1", "ITERPOS", True, f"{name}::nth uses an idiom whose count is not decided ({sorted(set(undecided))[:3]}): accepted, not proved", sites=site, site_key=name)
+    ctx.add(f"5.{name}-nth-consumes-n+1", "ITERPOS", not bad,
+            f"{name}::nth(n) consumes at most n + 1 groups on each of its {len(paths)} paths" + (f"; a path consumes {bad[0]['consumes']}: a resumed import (`.skip(k)` calls `nth`) loses a group" if bad else ""),
+            sites=site, site_key=name, witness=bad[0] if bad else None)
+    ctx.add(f"5.{name}-nth-skips-by-n", "ITERPOS", skips >= 1, f"{name}::nth(n) advances by n on some path ({skips} of {len(paths)})", sites=site, site_key=name + ":skip")
+
+
+def check_parquet(ctx):
+    F = ctx.F
+    with ctx.clause("5.parquet-positional"):
+        us = [u for u in F.find_units(f"<* as {IT}>::nth", "fuel_core_chain_config")]
+        ctx.expect_sites("5.nth-overrides", [u.q for u in us], at_least=1, what="Iterator::nth overrides on the snapshot read path (today: parquet Decoder)")
+        for u in us:
+            nth_consumption(ctx, u)
+        # the decoder's own cursor: one row group per `next`
+        dn = F.unit(f"<{PQ}::decode::Decoder as {IT}>::next").root
+        on = Origins(dn, 1)
+        cg = ctx.one_call(dn, f"{PQ}::decode::Decoder::current_group")
+        adds = [c for c in dn.calls if c.bb in dn.live and c.name in ("saturating_add", "checked_add", "wrapping_add") and atom_match(on.atoms(c.args[0]), f"field:{PQ}::decode::Decoder.group_index")]
+        ctx.expect_sites("5.decoder-cursor-step", adds, exactly=1, what="group_index advanced once in Decoder::next")
+        if adds:
+            ctx.const_arg("5.decoder-cursor-step-is-one", adds[0], 1, 1)
+        gb = F.unit(f"{PQ}::decode::Decoder::current_group").root
+        gr = ctx.one_call(gb, "*::get_row_group")
+        ctx.arg_origin("5.decoder-reads-group-at-cursor", gr, 1, f"field:{PQ}::decode::Decoder.group_index", depth=1)
+    with ctx.clause("6.parquet-codec"):
+        # writer and reader use the same entry codec, one row group per written group
+        wu = F.unit(f"{CC}::writer::PostcardParquetEncoder::write")
+        wv, wc = ctx.reach_calls([wu], ["fuel_core_chain_config"], max_depth=2)
+        enc = [c for c, _ch in wc if c.is_path("postcard::to_stdvec", "postcard::ser::to_stdvec")]
+        ctx.expect_sites("6.writer-encodes-with-postcard", [c.where() for c in enc], at_least=1, what="postcard::to_stdvec per entry in PostcardParquetEncoder::write")
+        ew = ctx.one_call(wu.root, f"{PQ}::encode::Encoder::write")
+        ctx.flows("6.encoder-result-returned", ew, to_return=True)
+        gu = [u for u in F.find_units(f"<{CC}::reader::GroupIter as {IT}>::next", "fuel_core_chain_config")]
+        ctx.expect_sites("6.group-reader", [u.q for u in gu], exactly=1, what="Iterator::next of GroupIter")
+        rv, rc = ctx.reach_calls(gu, ["fuel_core_chain_config"], max_depth=2)
+        dec = [c for c, _ch in rc if c.is_path("postcard::from_bytes", "postcard::de::from_bytes")]
+        ctx.expect_sites("6.reader-decodes-with-postcard", [c.where() for c in dec], at_least=1, what="postcard::from_bytes per entry in GroupIter::next")
+        eb = F.unit(f"{PQ}::encode::Encoder::write").root
+        ng = [c for c in eb.calls if c.bb in eb.live and c.name == "next_row_group"]
+        ctx.expect_sites("6.one-row-group-per-write", ng, exactly=1, what="next_row_group in Encoder::write")
+        wb = ctx.one_call(eb, "*::write_batch")
+        ctx.arg_origin("6.batch-is-the-given-elements", wb, 1, "param:2", depth=2)
+        closes = [c for c in eb.calls if c.bb in eb.live and c.name == "close"]
+        ctx.expect_sites("6.column-and-group-closed", closes, at_least=2, what="column.close() and group.close()")
+        ctx.after_ok("6.closed-after-batch-written", wb, closes)
+
+
+EXTRA_CONFIGS = {"parquet": check_parquet}
